@@ -853,6 +853,21 @@ fn fp_cv_fn_tokenizer(m: &CountVectorizer, p: &P, f: &mut Fingerprint) {
     f.extend("before_redefinition/", before);
     fp_cv(&c, p, f);
     fp_cv_files(&c, p, f);
+    // a vectoriser whose tokenizer was given back is persisted again: the function still cannot
+    // be written, so the copy restored from THAT file is again bound by the same contract
+    let mut gen3 = Fingerprint::new();
+    match bincode::serialize(&c).map_err(|e| e.to_string()).and_then(|b| bincode::deserialize::<CountVectorizer>(&b).map_err(|e| e.to_string())) {
+        Ok(c2) => match c2.transform(&train_docs(p)) {
+            Ok(x) => fp_sparse(c2.vocabulary(), &x, "train", &mut gen3),
+            Err(PreprocessingError::TokenizerNotSet) => match c.transform(&train_docs(p)) {
+                Ok(x) => fp_sparse(c.vocabulary(), &x, "train", &mut gen3),
+                Err(e) => gen3.err("transform_train", &e),
+            },
+            Err(e) => gen3.err("transform_train", &e),
+        },
+        Err(e) => gen3.text("codec", &e),
+    }
+    f.extend("re_persisted_after_redefinition/", gen3);
 }
 
 fn fp_tfidf(m: &FittedTfIdfVectorizer, p: &P, f: &mut Fingerprint) {
@@ -908,6 +923,20 @@ fn fp_tfidf_fn_tokenizer(m: &FittedTfIdfVectorizer, p: &P, f: &mut Fingerprint) 
     f.extend("before_redefinition/", before);
     fp_tfidf(&c, p, f);
     fp_tfidf_files(&c, p, f);
+    // see fp_cv_fn_tokenizer: same contract after persisting the repaired value again
+    let mut gen3 = Fingerprint::new();
+    match bincode::serialize(&c).map_err(|e| e.to_string()).and_then(|b| bincode::deserialize::<FittedTfIdfVectorizer>(&b).map_err(|e| e.to_string())) {
+        Ok(c2) => match c2.transform(&train_docs(p)) {
+            Ok(x) => fp_sparse(c2.vocabulary(), &x, "train", &mut gen3),
+            Err(PreprocessingError::TokenizerNotSet) => match c.transform(&train_docs(p)) {
+                Ok(x) => fp_sparse(c.vocabulary(), &x, "train", &mut gen3),
+                Err(e) => gen3.err("transform_train", &e),
+            },
+            Err(e) => gen3.err("transform_train", &e),
+        },
+        Err(e) => gen3.text("codec", &e),
+    }
+    f.extend("re_persisted_after_redefinition/", gen3);
 }
 
 const STOP: [&str; 5] = ["the", "and", "of", "alpha", "two two"];
@@ -1366,8 +1395,8 @@ pub fn register(r: &mut Registry) {
     r.model::<FastIca<f64>>("ica_model_exp", ICA, &["FastIca"], None, build_ica::<f64, 2>, fp_ica::<f64>, Some(|a, b| a == b));
     r.model::<FastIca<f32>>("ica_model_cube_f32", ICA, &["FastIca"], claim, build_ica::<f32, 3>, fp_ica::<f32>, Some(|a, b| a == b));
     r.model::<FastIcaValidParams<f64>>("ica_valid_params_logcosh", ICA, &["FastIcaValidParams", "GFunc"], claim, build_ica_params::<f64, 0>, fp_ica_params::<f64>, Some(|a, b| a == b));
-    r.model::<FastIcaValidParams<f64>>("ica_valid_params_seed0", ICA, &["FastIcaValidParams", "GFunc"], None, build_ica_params_seed0::<f64>, fp_ica_params::<f64>, Some(|a, b| a == b));
-    r.model::<FastIcaValidParams<f64>>("ica_valid_params_seed_max", ICA, &["FastIcaValidParams", "GFunc"], None, build_ica_params_seed_max::<f64>, fp_ica_params::<f64>, Some(|a, b| a == b));
+    r.model::<FastIcaValidParams<f64>>("ica_valid_params_seed0", ICA, &["FastIcaValidParams", "GFunc"], claim, build_ica_params_seed0::<f64>, fp_ica_params::<f64>, Some(|a, b| a == b));
+    r.model::<FastIcaValidParams<f64>>("ica_valid_params_seed_max", ICA, &["FastIcaValidParams", "GFunc"], claim, build_ica_params_seed_max::<f64>, fp_ica_params::<f64>, Some(|a, b| a == b));
     r.model::<FastIcaValidParams<f64>>("ica_valid_params_logcosh_bound", ICA, &["FastIcaValidParams", "GFunc"], None, build_ica_params::<f64, 1>, fp_ica_params::<f64>, Some(|a, b| a == b));
     r.model::<FastIcaValidParams<f64>>("ica_valid_params_exp", ICA, &["FastIcaValidParams", "GFunc"], None, build_ica_params::<f64, 2>, fp_ica_params::<f64>, Some(|a, b| a == b));
     r.model::<FastIcaValidParams<f32>>("ica_valid_params_cube_f32", ICA, &["FastIcaValidParams", "GFunc"], None, build_ica_params::<f32, 3>, fp_ica_params::<f32>, Some(|a, b| a == b));
